@@ -26,8 +26,17 @@ def suite_hist(rng, tier, flavour):
         yield gen.random_history(rng, flavour, rng.randrange(3, 40))
 
 def suite_damage(rng, tier, flavour):
-    n = 10 if tier == "quick" else 100
+    n = 6 if tier == "quick" else 100
     yield from gen.damage_programs(rng, flavour, n, exhaustive_cuts=True)
+
+def suite_bitflips(rng, tier, flavour):
+    if tier == "quick":
+        yield from gen.bitflip_programs(rng, flavour, 1, region="head")
+    else:
+        yield from gen.bitflip_programs(rng, flavour, 4, region="all")
+
+def suite_foreign(rng, tier, flavour):
+    yield from gen.foreign_bucket_programs(rng, flavour, 60 if tier == "quick" else 600)
 
 def suite_ls(rng, tier, flavour):
     n = 80 if tier == "quick" else 600
@@ -35,14 +44,83 @@ def suite_ls(rng, tier, flavour):
         p = gen.random_history(rng, flavour, rng.randrange(5, 60), hostile=0.3, real_writes=0.1)
         yield p
 
+W_HEALTHY = {"write": 3, "write_hash": 1, "stream": 3, "lookup": 4, "reader": 2}
+W_ALL = {"write": 3, "write_hash": 1, "stream": 3, "stream_drop": 1, "lookup": 4, "reader": 2, "extract": 2, "remove": 2, "insert": 1}
+
+def _api(rng, tier, flavour, weights, nq, nt, length=(6, 18), big_every=0, hostile=0.15, stream_kw=None):
+    n = nq if tier == "quick" else nt
+    for i in range(n):
+        big = 0.15 if (big_every and i % big_every == 0) else 0.0
+        yield gen.api_program(rng, flavour, rng.randrange(*length), weights, big=big, hostile=hostile, stream_kw=stream_kw)
+
+def suite_roundtrip(rng, tier, flavour):      # C02
+    yield from _api(rng, tier, flavour, W_HEALTHY, 150, 1500, big_every=50, hostile=0.35,
+                    stream_kw={"size_mode": None, "sri_mode": "none"})
+
+def suite_roundtrip_ok(rng, tier, flavour):   # C02: only correct declarations, every chunking
+    n = 100 if tier == "quick" else 1000
+    for i in range(n):
+        b = gen.ProgBuilder(rng, flavour, hostile=0.4)
+        for _ in range(rng.randrange(1, 5)):
+            r = rng.random()
+            big = 0.1 if i % 40 == 0 else 0.0
+            if r < 0.3: b.op_write(big)
+            elif r < 0.45: b.op_write_hash(big)
+            else: b.op_stream(big, size_mode=rng.choice(["none", "ok"]), sri_mode=rng.choice(["none", "none", "ok"]))
+            b.op_lookup()
+        b.final_lookups()
+        yield b.prog
+
+def suite_commit(rng, tier, flavour):         # C08
+    yield from _api(rng, tier, flavour, {"stream": 6, "write": 1, "lookup": 3, "remove": 1}, 200, 2000, big_every=60)
+
+def suite_removals(rng, tier, flavour):       # C09
+    yield from _api(rng, tier, flavour, {"write": 4, "write_hash": 1, "stream": 1, "lookup": 4, "remove": 5, "insert": 1},
+                    200, 2000, length=(8, 30))
+
+def suite_abandon(rng, tier, flavour):        # C14
+    yield from _api(rng, tier, flavour, {"write": 2, "stream": 3, "stream_drop": 4, "stream_leave": 1, "lookup": 4, "remove": 1},
+                    200, 2000, big_every=70)
+
+def suite_dedup(rng, tier, flavour):          # C16
+    yield from _api(rng, tier, flavour, {"write": 5, "write_hash": 3, "stream": 3, "lookup": 3, "remove": 1}, 200, 2000,
+                    big_every=70, stream_kw={"size_mode": None, "sri_mode": None})
+
+def suite_damage_content(rng, tier, flavour):  # C01 / C18
+    yield from _api(rng, tier, flavour, {"write": 3, "write_hash": 1, "stream": 1, "lookup": 4, "reader": 3, "extract": 4, "damage_content": 4},
+                    250, 2500, length=(8, 24), big_every=80)
+
+def suite_extract(rng, tier, flavour):        # C18
+    yield from _api(rng, tier, flavour, {"write": 3, "write_hash": 1, "lookup": 1, "extract": 6, "damage_content": 2, "remove": 1},
+                    200, 2000, length=(8, 24), big_every=80)
+
+def suite_all(rng, tier, flavour):
+    yield from _api(rng, tier, flavour, dict(W_ALL, damage_content=1), 200, 2000, length=(8, 30), big_every=100, hostile=0.3)
+
 Q2 = {"quick": ["sync", "astd"], "thorough": ["sync", "astd", "tok"]}
 Q3 = {"quick": ["sync", "astd", "tok"], "thorough": ["sync", "astd", "tok"]}
 
 REGISTRY = {
-    "C05": {"flavours": Q3, "suites": [("hist", suite_hist)],
-            "rule": "exhaustive histories over 2 keys x 2 values x {insert,remove} x {sync,async} up to length 2 (quick) / 3 (thorough) with lookups of both keys after every step, plus random histories of 3..40 ops (index::insert with random options, real writes, removes) over small and hostile keys, lookups via find/metadata/read/list."},
-    "C06": {"flavours": Q3, "suites": [("damage", suite_damage)],
-            "rule": "buckets of 2..6 reference-written records (tombstones, foreign keys) are damaged: one record cut at every byte length, bit flips, garbage / NUL / invalid-UTF-8 / lone-CR lines, destroyed newlines, duplicated fragments; then lookups through sync and async and the listing, a further API insert, and lookups again."},
+    "C02": {"flavours": Q3, "suites": [("roundtrip", suite_roundtrip), ("roundtrip_ok", suite_roundtrip_ok)],
+            "rule": "random programs of writes through every entry point (one-shot, streamed with random chunkings incl. empty/single-byte/decreasing, keyed and by address, with/without declared size, five algorithms, small/hostile keys, sizes 0..16 KiB+1 and occasionally 1 MiB-1/0/+1 and 3 MiB) each followed by reads by key, by address, streamed reads and metadata."},
+    "C08": {"flavours": Q3, "suites": [("commit", suite_commit)],
+            "rule": "streamed writers with declared size smaller/equal/larger and declared integrity correct/wrong/other-algorithm/multi-hash, keyed and by address, prior key states absent/present/removed, followed by lookups."},
+    "C09": {"flavours": Q3, "suites": [("removals", suite_removals)],
+            "rule": "histories mixing writes with remove, remove_hash, remove_fully, clear over small and hostile keys (keys sharing content included), lookups of every known key/address and the listing afterwards."},
+    "C14": {"flavours": Q3, "suites": [("abandon", suite_abandon)],
+            "rule": "writers dropped after creation / after some chunks / after a rejected commit, or left open, interleaved with successful operations; lookups, listing, and the final tree (including tmp/) compared."},
+    "C16": {"flavours": Q3, "suites": [("dedup", suite_dedup)],
+            "rule": "programs re-writing equal data under the same and different keys through different entry points, flavours and all five algorithms; returned addresses (hashlib/libxxhash), lookups and the final tree (one file per address) compared."},
+    "C01": {"flavours": Q3, "suites": [("damage_content", suite_damage_content)],
+            "rule": "programs that store data then damage content files (bit flip, truncation, extension, emptying, bytes of another entry, deletion, symlink substitution) and retrieve through every checked entry point (read, read_hash, streamed reader + check, copy/hard_link/reflink)."},
+    "C18": {"flavours": Q3, "suites": [("extract", suite_extract), ("damage_content", suite_damage_content)],
+            "rule": "copy / hard_link / reflink by key and by address, checked and unchecked, to fresh and existing destinations, on pristine and damaged content; results, byte counts and destination files compared."},
+    "C12": {"flavours": Q3, "suites": [("all", suite_all), ("damage", suite_damage)],
+            "rule": "all op kinds incl. damage on three flavours; each binary must match the one deterministic model, hence each other."},
+    "C05": {"flavours": Q3, "suites": [("hist", suite_hist), ("foreign", suite_foreign)],
+            "rule": "exhaustive histories over 2 keys x 2 values x {insert,remove} x {sync,async} up to length 2 (quick) / 3 (thorough) with lookups of both keys after every step, plus random histories of 3..40 ops (index::insert with random options, real writes, removes) over small and hostile keys, lookups via find/metadata/read/list; plus buckets pre-filled with interleaved records of the key and of foreign keys (as if their SHA-1 collided), foreign tombstones after the key's last write included."},
+    "C06": {"flavours": Q3, "suites": [("damage", suite_damage), ("bitflips", suite_bitflips)],
+            "rule": "buckets of 2..6 reference-written records (tombstones, foreign keys) are damaged: one record cut at every byte length, bit flips, garbage / NUL / invalid-UTF-8 / lone-CR lines, destroyed newlines, duplicated fragments; then lookups through sync and async and the listing, a further API insert, and lookups again; plus every single-bit flip of the first 80 bytes (newline, checksum, tab, start of the JSON) of the newest record (quick) / of every byte of it (thorough)."},
     "C10": {"flavours": Q2, "suites": [("ls", suite_ls), ("damage", suite_damage)],
             "rule": "random histories of 5..60 ops over small and hostile keys followed by metadata of every key and list_sync, every listed entry compared field by field with the model; plus the damaged buckets of C06 (listing vs lookups)."},
 }
